@@ -258,3 +258,28 @@ _UNI = shared('oms u', obj('OMS', oms_id=integer(), reversed_oms=const(None)))
 contract('gnpy.topology.request.find_reversed_path', name='gnpy.topology.request.find_reversed_path[no opposite direction]', props=['C13', 'C19'],
          params={'pth': lst(_n('Transceiver'), _n('Roadm'), _n('Edfa', oms=_UNI), _n('Fiber', oms=_UNI), _n('Roadm'), _n('Transceiver'))},
          raises={'ValueError': 'True'}, ensures=[], use_at_calls=False, modifies=[])
+
+# ---- synchronisation vectors (C12): a vector repeated under another id is kept once, different vectors are all kept
+_DJ = lambda a, b: obj('Disjunction', disjunction_id=string(), disjunctions_req=lst(const(a), const(b)))
+contract('gnpy.topology.request.deduplicate_disjunctions', name='gnpy.topology.request.deduplicate_disjunctions[same pair twice]', props=['C12'],
+         params={'disjn': lst(_DJ('r1', 'r2'), _DJ('r2', 'r1'))},
+         requires=[('two_ids', 'disjn[0].disjunction_id != disjn[1].disjunction_id')],
+         ensures=[('kept_once', 'len(result) == 1 and result[0] is disjn[0]'), ('argument_untouched', 'len(disjn) == 2')],
+         use_at_calls=False, modifies=[])
+contract('gnpy.topology.request.deduplicate_disjunctions', name='gnpy.topology.request.deduplicate_disjunctions[different pairs]', props=['C12'],
+         params={'disjn': lst(_DJ('r1', 'r2'), _DJ('r1', 'r3'), _DJ('r2', 'r3'))},
+         ensures=[('all_kept_in_order', 'len(result) == 3 and result[0] is disjn[0] and result[1] is disjn[1] and result[2] is disjn[2]')],
+         use_at_calls=False, modifies=[])
+_OMSE = lambda: obj('OMS', oms_id=integer(), el_list=lst(obj('Roadm', uid=string()), obj('Fiber', uid=string()), obj('Roadm', uid=string())))
+contract('gnpy.topology.request.is_adjacent', name='gnpy.topology.request.is_adjacent[unrelated lines]', props=['C11'],
+         params={'oms1': _OMSE(), 'oms2': _OMSE()}, ensures=[('not_adjacent', 'result == False')], use_at_calls=False, modifies=[])
+_RS = shared('the roadm', obj('Roadm', uid=string()))
+contract('gnpy.topology.request.is_adjacent', name='gnpy.topology.request.is_adjacent[egress is ingress]', props=['C11'],
+         params={'oms1': obj('OMS', oms_id=integer(), el_list=lst(obj('Roadm', uid=string()), obj('Fiber', uid=string()), _RS)),
+                 'oms2': obj('OMS', oms_id=integer(), el_list=lst(_RS, obj('Fiber', uid=string()), obj('Roadm', uid=string())))},
+         ensures=[('adjacent', 'result == True')], use_at_calls=False, modifies=[])
+contract('gnpy.topology.request.is_adjacent', name='gnpy.topology.request.is_adjacent[opposite directions of one line]', props=['C11'],
+         params={'oms1': obj('OMS', oms_id=integer(), el_list=lst(_RS, obj('Fiber', uid=string()), obj('Roadm', uid=string()))),
+                 'oms2': obj('OMS', oms_id=integer(), el_list=lst(obj('Roadm', uid=string()), obj('Fiber', uid=string()), _RS))},
+         # shares a ROADM but oms1 does not end where oms2 starts
+         ensures=[('not_adjacent', 'result == False')], use_at_calls=False, modifies=[])
